@@ -21,6 +21,8 @@ def replay(req):
     func = req.get('func', '')
     if func.startswith('created_files.'):
         return created_files_search(req)
+    if req.get('property') == 'C11' or '/region.' in req.get('label', ''):
+        return aliasing_cases(req)
     r = replay_extra(req)
     if r is not None:
         return r
@@ -323,5 +325,82 @@ def fence_cases(req):
                             'evaluations': n}
         return {'reproduced': False, 'evaluations': n,
                 'note': '%d method x builder-kind cases raised RuntimeError without effect' % n}
+    finally:
+        shutil.rmtree(root, ignore_errors=True)
+
+
+# -------------------------------------------------------------------------------------------------
+def aliasing_cases(req):
+    """C11: mutate every value that crossed the API and rebuild unchanged; return values and the
+    invocation log must not depend on the mutations"""
+    from file_builder import FileBuilder
+    root = scratch()
+    n = 0
+    try:
+        os.makedirs(os.path.join(root, 'in', 'sub'))
+        write(os.path.join(root, 'in', 'a.txt'), 'a')
+        write(os.path.join(root, 'in', 'sub', 'b.txt'), 'b')
+
+        def program(mutate):
+            log = []
+
+            def lister(b):
+                log.append('lister')
+                l = b.list_dir(os.path.join(root, 'in'))
+                w = b.walk(os.path.join(root, 'in'))
+                if mutate:
+                    l.pop()
+                    w[0][1].clear()
+                    w.append('junk')
+                return 'listed'
+
+            def producer(b, arg):
+                log.append('producer')
+                if mutate:
+                    arg.append('mutated-arg')
+                return [1, {'k': [2]}]
+
+            def mk(b, filename, arg):
+                log.append('mk')
+                if mutate:
+                    arg['x'].append(9)
+                write(filename, 'out')
+                return {'v': [3]}
+
+            def rootf(b):
+                r1 = b.subbuild('producer', producer, ['a'])
+                r2 = b.build_file(os.path.join(root, 'out.txt'), 'mk', mk, {'x': [1]})
+                r3 = b.subbuild('lister', lister)
+                snapshot_ = json.loads(json.dumps([r1, r2, r3]))
+                if mutate:
+                    r1.append(9)
+                    r1[1]['k'].append(9)
+                    r2['v'].append(9)
+                return snapshot_
+            return rootf, log
+        results = []
+        for variant in ('mutating', 'reference'):
+            cache = os.path.join(root, 'cache_%s.gz' % variant)
+            runs = []
+            for i in range(3):
+                n += 1
+                rootf, log = program(variant == 'mutating')
+                val = FileBuilder.build(cache, 'n', rootf)
+                runs.append((val, list(log)))
+            results.append(runs)
+        mut, ref = results
+        for i in range(3):
+            if mut[i][0] != ref[i][0]:
+                return {'reproduced': True, 'check': 'a mutated value leaked into a later result',
+                        'input': 'build #%d of the mutating program' % (i + 1),
+                        'observed': repr(mut[i][0]), 'expected': repr(ref[i][0]), 'evaluations': n}
+            if mut[i][1] != ref[i][1]:
+                return {'reproduced': True,
+                        'check': 'a mutated value changed what is re-executed',
+                        'input': 'build #%d of the mutating program' % (i + 1),
+                        'observed': repr(mut[i][1]), 'expected': repr(ref[i][1]), 'evaluations': n}
+        return {'reproduced': False, 'evaluations': n,
+                'note': 'three unchanged rebuilds of a program that mutates every value it '
+                        'receives behave like the non-mutating twin'}
     finally:
         shutil.rmtree(root, ignore_errors=True)
